@@ -503,6 +503,12 @@ pub fn gen_sentence(rng: &mut Rng, d: &DictSrc, cfg: &GenCfg, max_parts: usize) 
 pub fn gen_perm(rng: &mut Rng, n: usize) -> Vec<u16> {
     // permutation of 1..n-1 (n = number of ids including 0)
     let mut v: Vec<u16> = (1..n as u16).collect();
+    // now and then the identity except for the two highest ids (on a non-square connector: beyond the other side's ids)
+    if v.len() >= 3 && rng.chance(1, 6) {
+        let k = v.len();
+        v.swap(k - 1, k - 2);
+        return v;
+    }
     rng.shuffle(&mut v);
     v
 }
